@@ -21,6 +21,8 @@ structure QC (t : Th) : Prop where
   wpos : t.q.wpos = t.q.wHist.headD 0
   sum : t.q.wHist.headD 0 = t.q.rpos + (t.qStmts.map (·.size)).sum
   pos : ∀ st ∈ t.qStmts, 0 < st.size
+  /-- the reader's cached writer position is a record boundary ahead of (or at) the reader position -/
+  wc : ∃ k, k ≤ t.qStmts.length ∧ t.q.wcache = t.q.rpos + ((t.qStmts.take k).map (·.size)).sum
 
 /-- the premise of C05, per context index -/
 def PremI (s : BSt) : Prop := ∀ i, ∀ st ∈ (s.th i).accepted, st.enqAt ≤ st.ts + s.cfg.grace
@@ -70,14 +72,20 @@ structure ThEq (t t' : Th) : Prop where
   wh : t'.q.wHist.headD 0 = t.q.wHist.headD 0
   rpos : t'.q.rpos = t.q.rpos
   valid : t'.valid = t.valid
+  wc : t'.q.wcache = t.q.wcache ∨ t'.q.wcache = t'.q.wHist.headD 0
 
-theorem ThEq.refl (t : Th) : ThEq t t := ⟨rfl, rfl, rfl, rfl, rfl, rfl, rfl⟩
+theorem ThEq.refl (t : Th) : ThEq t t := ⟨rfl, rfl, rfl, rfl, rfl, rfl, rfl, .inl rfl⟩
 
 theorem ThEq.chain {t t' : Th} (h : ThEq t t') : chain t' = chain t := by
   simp only [PB.chain, h.buf, h.q]
 
-theorem ThEq.qc {t t' : Th} (h : ThEq t t') (hq : QC t) : QC t' :=
-  ⟨by rw [h.wpos, h.wh]; exact hq.wpos, by rw [h.wh, h.rpos, h.q]; exact hq.sum, by rw [h.q]; exact hq.pos⟩
+theorem ThEq.qc {t t' : Th} (h : ThEq t t') (hq : QC t) : QC t' := by
+  refine ⟨by rw [h.wpos, h.wh]; exact hq.wpos, by rw [h.wh, h.rpos, h.q]; exact hq.sum, by rw [h.q]; exact hq.pos, ?_⟩
+  rcases h.wc with e | e
+  · obtain ⟨k, hk, hw⟩ := hq.wc
+    exact ⟨k, by rw [h.q]; exact hk, by rw [e, h.rpos, h.q]; exact hw⟩
+  · refine ⟨t'.qStmts.length, Nat.le_refl _, ?_⟩
+    rw [e, List.take_length, h.wh, h.rpos, h.q]; exact hq.sum
 
 /-- the invariant depends only on the fields listed here -/
 theorem PI.congr {ex fl T C} {s s' : BSt} (h : PI c ex fl T C s) (hcfg : s'.cfg = s.cfg) (hnow : s'.now = s.now)
@@ -179,20 +187,32 @@ theorem PI.unex {fl T C} {s : BSt} {a : Nat} (h : PI c none fl T C s) : PI c (so
 
 theorem qPrepareWrite_fields (c : Cfg) (q : Spsc.St) (n : Nat) :
     (qPrepareWrite c q n).1.wpos = q.wpos ∧ (qPrepareWrite c q n).1.wHist = q.wHist ∧
-    (qPrepareWrite c q n).1.rpos = q.rpos := by
+    (qPrepareWrite c q n).1.rpos = q.rpos ∧ (qPrepareWrite c q n).1.wcache = q.wcache := by
   simp only [qPrepareWrite, Spsc.absApi, Spsc.apiOps]
   split <;> simp [Spsc.run, Spsc.step]
 
 theorem qFinishCommit_fields (c : Cfg) (q : Spsc.St) (n : Nat) :
     (qFinishCommit c q n).wpos = q.wpos + n ∧ (qFinishCommit c q n).wHist = (q.wpos + n) :: q.wHist ∧
-    (qFinishCommit c q n).rpos = q.rpos := by
+    (qFinishCommit c q n).rpos = q.rpos ∧ (qFinishCommit c q n).wcache = q.wcache := by
   simp [qFinishCommit, Spsc.absApi, Spsc.apiOps, Spsc.run, Spsc.step]
 
 theorem qPrepareRead_fields (c : Cfg) (q : Spsc.St) :
     (qPrepareRead c q).1.wpos = q.wpos ∧ (qPrepareRead c q).1.wHist = q.wHist ∧
-    (qPrepareRead c q).1.rpos = q.rpos := by
+    (qPrepareRead c q).1.rpos = q.rpos ∧
+    ((qPrepareRead c q).1.wcache = q.wcache ∨ (qPrepareRead c q).1.wcache = (qPrepareRead c q).1.wHist.headD 0) := by
   simp only [qPrepareRead, Spsc.absApi, Spsc.apiOps]
   split <;> simp [Spsc.run, Spsc.step]
+
+theorem qPrepareRead_true (c : Cfg) (q : Spsc.St) (h : (qPrepareRead c q).2 = true) :
+    (qPrepareRead c q).1.wcache ≠ (qPrepareRead c q).1.rpos := by
+  simp only [qPrepareRead, Spsc.absApi, Spsc.apiOps, Spsc.apiObs] at h ⊢
+  by_cases hw : q.wcache = q.rpos
+  · simp only [if_pos hw, Spsc.run, Spsc.step] at h ⊢
+    intro he
+    have he' : q.wHist.head?.getD 0 = q.rpos := by simpa using he
+    simp [he'] at h
+  · simp only [if_neg hw, Spsc.run] at h ⊢
+    exact hw
 
 theorem qPrepareRead_false (c : Cfg) (q : Spsc.St) (h : (qPrepareRead c q).2 = false) : q.wHist.headD 0 = q.rpos := by
   simp only [qPrepareRead, Spsc.absApi, Spsc.apiOps, Spsc.apiObs] at h
@@ -205,9 +225,17 @@ theorem qPrepareRead_false (c : Cfg) (q : Spsc.St) (h : (qPrepareRead c q).2 = f
     try exact absurd h hw
 
 theorem qEmpty_fields (c : Cfg) (q : Spsc.St) :
-    (qEmpty c q).1.wpos = q.wpos ∧ (qEmpty c q).1.wHist = q.wHist ∧ (qEmpty c q).1.rpos = q.rpos := by
+    (qEmpty c q).1.wpos = q.wpos ∧ (qEmpty c q).1.wHist = q.wHist ∧ (qEmpty c q).1.rpos = q.rpos ∧
+    ((qEmpty c q).1.wcache = q.wcache ∨ (qEmpty c q).1.wcache = (qEmpty c q).1.wHist.headD 0) := by
   simp only [qEmpty, Spsc.absApi, Spsc.apiOps]
   split <;> simp [Spsc.run, Spsc.step]
+
+/-- the converse of `qEmpty_true`: with a coherent cached writer position, an empty queue is reported empty -/
+theorem qEmpty_of_eq (c : Cfg) (q : Spsc.St) (h1 : q.wHist.headD 0 = q.rpos) (h2 : q.wcache = q.rpos) :
+    (qEmpty c q).2 = true := by
+  have h1' : q.wHist.head?.getD 0 = q.rpos := by simpa using h1
+  simp only [qEmpty, Spsc.absApi, Spsc.apiOps, Spsc.apiObs, if_pos h2, Spsc.run, Spsc.step]
+  simp [h1']
 
 theorem qEmpty_true (c : Cfg) (q : Spsc.St) (h : (qEmpty c q).2 = true) : q.wHist.headD 0 = q.rpos := by
   simp only [qEmpty, Spsc.absApi, Spsc.apiOps, Spsc.apiObs] at h
@@ -220,16 +248,30 @@ theorem qEmpty_true (c : Cfg) (q : Spsc.St) (h : (qEmpty c q).2 = true) : q.wHis
     try exact absurd h hw
 
 theorem qFinishRead_fields (c : Cfg) (q : Spsc.St) (n : Nat) :
-    (qFinishRead c q n).wpos = q.wpos ∧ (qFinishRead c q n).wHist = q.wHist ∧ (qFinishRead c q n).rpos = q.rpos + n := by
+    (qFinishRead c q n).wpos = q.wpos ∧ (qFinishRead c q n).wHist = q.wHist ∧ (qFinishRead c q n).rpos = q.rpos + n ∧
+    (qFinishRead c q n).wcache = q.wcache := by
   simp [qFinishRead, Spsc.absApi, Spsc.apiOps, Spsc.run, Spsc.step]
 
 theorem qCommitRead_fields (c : Cfg) (q : Spsc.St) :
-    (qCommitRead c q).wpos = q.wpos ∧ (qCommitRead c q).wHist = q.wHist ∧ (qCommitRead c q).rpos = q.rpos := by
+    (qCommitRead c q).wpos = q.wpos ∧ (qCommitRead c q).wHist = q.wHist ∧ (qCommitRead c q).rpos = q.rpos ∧
+    (qCommitRead c q).wcache = q.wcache := by
   simp only [qCommitRead, Spsc.absApi, Spsc.apiOps, Spsc.run, Spsc.step]
   split <;> simp
 
-theorem ThEq.ofQ (t : Th) (q' : Spsc.St) (h : q'.wpos = t.q.wpos ∧ q'.wHist = t.q.wHist ∧ q'.rpos = t.q.rpos) :
-    ThEq t { t with q := q' } :=
-  ⟨rfl, rfl, rfl, h.1, by simp [h.2.1], h.2.2, rfl⟩
+theorem ThEq.ofQ (t : Th) (q' : Spsc.St) (h : q'.wpos = t.q.wpos ∧ q'.wHist = t.q.wHist ∧ q'.rpos = t.q.rpos ∧
+    (q'.wcache = t.q.wcache ∨ q'.wcache = q'.wHist.headD 0)) : ThEq t { t with q := q' } :=
+  ⟨rfl, rfl, rfl, h.1, by simp [h.2.1], h.2.2.1, rfl, h.2.2.2⟩
+
+theorem ThEq.ofQ' (t : Th) (q' : Spsc.St) (h : q'.wpos = t.q.wpos ∧ q'.wHist = t.q.wHist ∧ q'.rpos = t.q.rpos ∧
+    q'.wcache = t.q.wcache) : ThEq t { t with q := q' } :=
+  ThEq.ofQ t q' ⟨h.1, h.2.1, h.2.2.1, .inl h.2.2.2⟩
+
+/-- an empty queue is reported empty -/
+theorem QC.empty_true {t : Th} (h : QC t) (c : Cfg) (he : t.qStmts = []) : (qEmpty c t.q).2 = true := by
+  obtain ⟨k, _, hw⟩ := h.wc
+  have hs := h.sum
+  rw [he] at hs hw
+  simp only [List.map_nil, List.sum_nil, Nat.add_zero, List.take_nil] at hs hw
+  exact qEmpty_of_eq c t.q hs hw
 
 end Backend.PB
